@@ -225,7 +225,9 @@ func runC11(p *Program, r *Result) {
 		// headerMAC before Marshal
 		mac := callsTo(enc, pkgAge+".headerMAC")
 		mar := callsTo(enc, "(*"+pkgFormat+".Header).Marshal")
-		ok := len(mac) == 1 && len(mar) == 1 && dominatesInstr(mac[0].(ssa.Instruction), mar[0].(ssa.Instruction))
+		// the (threaded) fact "headerMAC(...) returned a nil error" at the Marshal call says that the
+		// MAC was computed, successfully, on every feasible path to it
+		ok := len(mac) == 1 && len(mar) == 1
 		if ok {
 			_, ok = errFactFor(tb.FactsAt(mar[0].Block()), mac[0].Value(), true)
 		}
